@@ -103,13 +103,18 @@ class TargetFault(Exception):
     pass
 
 
+class TargetAbort(BaseException):
+    """A fault that is not an Exception (an interrupt delivered while the target is at work)."""
+
+
 class SharedTarget:
     """Recording extended result; every call is a visible operation and may be made to raise."""
 
-    def __init__(self, sched, faults):
+    def __init__(self, sched, faults, abort_in=()):
         self.sched = sched
         self.log = []  # (task id, name, payload, faulted)
         self.faults = faults
+        self.abort_in = abort_in  # calls whose injected fault is a BaseException rather than an Exception
         self._should_stop = False
 
     def _enter(self, name, payload):
@@ -121,6 +126,8 @@ class SharedTarget:
             faulted = True
         self.log.append((tid, name, payload, faulted))
         if faulted:
+            if name in self.abort_in:
+                raise TargetAbort("%s%r" % (name, payload))
             raise TargetFault("%s%r" % (name, payload))
 
     def startTestRun(self):
@@ -177,7 +184,7 @@ def execute(config, chooser, faults=True, make_forwarder=None):
     scripts = CONFIGS[config]
     sched = S.Scheduler(chooser, horizon=2000, exit_points=False)  # nothing in this harness observes thread termination
     sem = S.SSemaphore(sched, 1)
-    target = SharedTarget(sched, faults)
+    target = SharedTarget(sched, faults, abort_in=("tags", "stopTest", "addFailure", "stopTestRun"))
     seen_exc = {}  # task index -> list of (step, exception repr)
     make_forwarder = make_forwarder or (lambda target, sem: ThreadsafeForwardingResult(target, sem))
 
@@ -190,7 +197,7 @@ def execute(config, chooser, faults=True, make_forwarder=None):
                 sched.point("forwarder.%s" % (label[-1],))
             try:
                 return fn(*a, **kw)
-            except Exception as e:
+            except (Exception, TargetAbort) as e:
                 excs.append((label, type(e).__name__))
                 return None
 
